@@ -143,7 +143,7 @@ impl Check for C10 {
         for _ in 0..nops {
             case.ops.push(match d.weighted(&[12, 3, 2, 5, 2, 4]) {
                 0 => Op::Next,
-                1 => Op::PeekN { n: d.below(5) },
+                1 => Op::PeekN { n: crate::gen::gen_peek_n(d, 5) },
                 2 => Op::SetMode { m: d.below(nm) },
                 3 => Op::SetOffset {
                     o: gen_offset(d, &text),
@@ -359,7 +359,7 @@ impl Check for C11 {
         for _ in 0..nops {
             case.ops.push(match d.weighted(&[10, 8, 2, 2]) {
                 0 => Op::Next,
-                1 => Op::PeekN { n: d.below(6) },
+                1 => Op::PeekN { n: crate::gen::gen_peek_n_opt(d, 6, true) },
                 2 => Op::SetMode { m: d.below(nm) },
                 _ => Op::SetOffset {
                     o: text.offs[d.below(text.offs.len())],
@@ -658,6 +658,38 @@ impl Check for C09 {
         let model = case.model();
         let max = if thorough { 64 } else { 32 };
         case.inputs = vec![gen_newline_rich_input(d, &model, max)];
+        if d.chance(6) {
+            // one token spanning many lines (more than 16 / 64 line breaks inside a single token)
+            let rx = match d.below(3) {
+                0 => crate::rx::parse_supported(r"[^#]+"),
+                1 => crate::rx::parse_supported(r"/\*([^*]|\*[^/])*\*/"),
+                _ => crate::rx::parse_supported(r"(\n|[a-z ])+"),
+            };
+            let opener = if matches!(rx, crate::rx::Rx::Concat(_)) { "/*" } else { "" };
+            let closer = if opener.is_empty() { "#" } else { "*/" };
+            let mut tt = 40;
+            while case.modes[0].pats.iter().any(|p| p.tt == tt) {
+                tt += 1;
+            }
+            case.modes[0].pats.insert(0, PatSpec { rx, tt, la: None });
+            let lines = match d.below(4) {
+                0 => 15 + d.below(5),
+                1 => 63 + d.below(5),
+                2 => 17 + d.below(60),
+                _ => 128 + d.below(6),
+            };
+            let mut s = String::from(opener);
+            for _ in 0..lines {
+                for _ in 0..d.below(4) {
+                    s.push(*d.pick(&['a', 'b', ' ', 'z']));
+                }
+                s.push('\n');
+            }
+            s.push_str("ab");
+            s.push_str(closer);
+            s.push_str("\nab\n");
+            case.inputs = vec![s];
+        }
         let text = Text::new(case.input());
         let nm = case.modes.len();
         let bare = d.bool();
@@ -676,7 +708,7 @@ impl Check for C09 {
                 4 => Op::Position {
                     o: text.offs[d.below(text.offs.len())],
                 },
-                5 => Op::PeekN { n: d.below(4) },
+                5 => Op::PeekN { n: crate::gen::gen_peek_n(d, 4) },
                 _ => {
                     let n = 1 + d.below(3);
                     Op::PeekAdvance { n, k: d.below(n) }
@@ -716,6 +748,7 @@ impl Check for C09 {
                 return Ok(st);
             }
         };
+        st.flag("input_with_more_than_16_lines", input.matches('\n').count() > 16);
         st.flag("driver_find_matches", bare);
         st.flag("driver_with_positions", !bare);
         let len = input.len();
